@@ -694,3 +694,102 @@ Proof.
   intros El x. unfold kf_links in HkL. rewrite El in HkL. cbn [andb] in HkL. apply negb_false_iff in HkL.
   apply links_sub_incl in HkL. split; [apply HkL | apply IL].
 Qed.
+
+(* ------------------------------------------------------------------ concrete witnesses (closed terms, vm_compute) *)
+Open Scope string_scope.
+Definition gR (i : nat) : ginfo := {| gi_id := i; gi_cfw := [0]; gi_api := false; gi_dtype := None; gi_inputs := [] |}.
+(* group 0: root with columns a, b;  group 1: root with column c;  group 2: g1 = f(a, c) *)
+Definition exu : universe :=
+  [("a", gR 0); ("b", gR 0); ("c", gR 1);
+   ("g1", {| gi_id := 2; gi_cfw := [0]; gi_api := false; gi_dtype := None; gi_inputs := [("a", None); ("c", None)] |})].
+Definition mkf (n : string) (o : nat) (l : option link) : fobj :=
+  {| f_name := n; f_opt := o; f_cfw := None; f_flag := false; f_dtype := None; f_uuid := 0; f_link := l |}.
+Definition Linner : link := {| l_jt := 0; l_left := 0; l_right := 1; l_li := ["k"]; l_ri := ["j"] |}.
+Definition Lleft : link := {| l_jt := 1; l_left := 0; l_right := 1; l_li := ["k"]; l_ri := ["j"] |}.
+Definition fb : flt := {| ft_name := "b"; ft_opts := []; ft_type := "min"; ft_param := [("value", 20%Z)] |}.
+(* the caller's objects: F0 = b{x:1}, F1 = a{x:2}, F2 = a{x:1}, F3 = b{x:2}, F4 = a with link inner(0,1), F5 = g1,
+   F6 = a with link left(0,1); Options O0 = {x:1}, O1 = {x:2}, O2 = {}; a GlobalFilter with the filter b >= 20 *)
+Definition exw (links : list link) : world :=
+  {| hF := [mkf "b" 0 None; mkf "a" 1 None; mkf "a" 0 None; mkf "b" 1 None; mkf "a" 2 (Some Linner); mkf "g1" 2 None;
+            mkf "a" 2 (Some Lleft)];
+     hO := [ {| og := [("x", VZ 1)]; oc := [] |}; {| og := [("x", VZ 2)]; oc := [] |}; {| og := []; oc := [] |} ];
+     w_links := links; w_filters := [fb]; w_coll := [] |}.
+Definition cl (fs : list nat) (copy lnk fil : bool) (api : option cols) : call :=
+  {| c_feats := fs; c_copy := copy; c_strict := false; c_api := api; c_links := lnk; c_filter := fil |}.
+Definition is_accepted (o : outcome) : bool := match o with Accepted _ _ => true | _ => false end.
+Definition seen_links (o : outcome) : list link := match o with Accepted _ l => l | _ => [] end.
+
+(* call 1 [b{x:1}], call 2 [a{x:2}], same GlobalFilter: rejected; with a fresh equal filter: accepted *)
+Lemma filter_reuse_refuted_l :
+  let c1 := cl [0] true false true None in let c2 := cl [1] true false true None in
+  let w1 := fst (plan_call exu 8 (exw []) c1) in
+  is_accepted (snd (plan_call exu 8 (exw []) c1)) = true /\
+  hF w1 = hF (exw []) /\ hO w1 = hO (exw []) /\ w_filters w1 = w_filters (exw []) /\
+  snd (plan_call exu 8 w1 c2) = Failed ERejected /\
+  is_accepted (snd (plan_call exu 8 (exw []) c2)) = true /\
+  kf_filter exu 8 w1 c2 = true /\ kf_filter_touched exu 8 w1 c2 = true.
+Proof. vm_compute. repeat split; reflexivity. Qed.
+
+(* the witness of the design notes: [a{x:1}], then [a{x:2}, b{x:2}] *)
+Lemma filter_reuse_refuted2_l :
+  let c1 := cl [2] true false true None in let c2 := cl [1; 3] true false true None in
+  let w1 := fst (plan_call exu 8 (exw []) c1) in
+  snd (plan_call exu 8 w1 c2) = Failed ERejected /\ is_accepted (snd (plan_call exu 8 (exw []) c2)) = true /\
+  kf_filter exu 8 w1 c2 = true.
+Proof. vm_compute. repeat split; reflexivity. Qed.
+
+(* the collection entry a prepared session's feature set refers to (FeatureSet.add_filters keeps the set object of
+   GlobalFilter.collection) grows when a later call uses the same GlobalFilter: [a{x:1}] then [a{x:2}], both accepted *)
+Lemma filter_entry_of_earlier_session_grows_l :
+  let c1 := cl [2] true false true None in let c2 := cl [1] true false true None in
+  let w1 := fst (plan_call exu 8 (exw []) c1) in let w2 := fst (plan_call exu 8 w1 c2) in
+  is_accepted (snd (plan_call exu 8 (exw []) c1)) = true /\ is_accepted (snd (plan_call exu 8 w1 c2)) = true /\
+  List.length (coll_get (w_coll w1) (0, "a")) = 1 /\ List.length (coll_get (w_coll w2) (0, "a")) = 2 /\
+  fset_eqb (coll_get (w_coll w1) (0, "a")) (coll_get (w_coll w2) (0, "a")) = false.
+Proof. vm_compute. repeat split; reflexivity. Qed.
+
+(* call 1 requests a feature that carries a Link, links = the caller's (empty) set S; call 2 requests g1 (needs a and c
+   from two groups) with the same S: the resolver now sees a link the caller never put into S *)
+Lemma links_reuse_refuted_l :
+  let c1 := cl [4] true true false None in let c2 := cl [5] true true false None in
+  let w1 := fst (plan_call exu 8 (exw []) c1) in
+  hF w1 = hF (exw []) /\ w_links w1 = [Linner] /\
+  seen_links (snd (plan_call exu 8 w1 c2)) = [Linner] /\ seen_links (snd (plan_call exu 8 (exw []) c2)) = [] /\
+  is_accepted (snd (plan_call exu 8 w1 c2)) = true /\ is_accepted (snd (plan_call exu 8 (exw []) c2)) = true /\
+  kf_links (exw []) w1 c2 = true.
+Proof. vm_compute. repeat split; reflexivity. Qed.
+
+(* S = {inner(0,1)}; call 1 requests a feature carrying left(0,1); every later call with S is rejected by LinkValidator *)
+Lemma links_reuse_refuted2_l :
+  let c1 := cl [6] true true false None in let c2 := cl [5] true true false None in
+  let w1 := fst (plan_call exu 8 (exw [Linner]) c1) in
+  w_links w1 = [Linner; Lleft] /\ snd (plan_call exu 8 w1 c2) = Failed ELinks /\
+  is_accepted (snd (plan_call exu 8 (exw [Linner]) c2)) = true /\ kf_links (exw [Linner]) w1 c2 = true.
+Proof. vm_compute. repeat split; reflexivity. Qed.
+
+(* copy_features=False: the feature and its Options object are written (flag, compute framework, ApiInputData key); passing
+   the same feature again with api data of another shape is rejected by Options.add, a fresh equal feature is accepted *)
+Lemma feature_reuse_nocopy_refuted_l :
+  let api1 : cols := [("K", ["a"; "b"])] in let api2 : cols := [("K", ["a"; "b"; "z"])] in
+  let c1 := cl [1] false false false (Some api1) in let c2 := cl [1] false false false (Some api2) in
+  let w1 := fst (plan_call exu 8 (exw []) c1) in
+  nth_error (hF w1) 1 = Some {| f_name := "a"; f_opt := 1; f_cfw := Some [0]; f_flag := true; f_dtype := None; f_uuid := 0;
+                                f_link := None |} /\
+  nth_error (hO w1) 1 = Some {| og := [("x", VZ 2); (api_key, VCols api1)]; oc := [] |} /\
+  snd (plan_call exu 8 w1 c2) = Failed EAddConflict /\ is_accepted (snd (plan_call exu 8 (exw []) c2)) = true /\
+  (* the same two calls with copy_features=True *)
+  is_accepted (snd (plan_call exu 8 (fst (plan_call exu 8 (exw []) (cl [1] true false false (Some api1))))
+                              (cl [1] true false false (Some api2)))) = true.
+Proof. vm_compute. repeat split; reflexivity. Qed.
+
+(* repeating a call with the same GlobalFilter: inside kf_filter_touched (the proved theorem does not cover it), outside the
+   narrower kf_filter, and the outcome is that of the pristine objects *)
+Lemma args_reuse_example_l :
+  let cs := [cl [2] true false true None; cl [2] true false true None] in
+  let c := cl [2] true false true None in
+  kf_links (exw []) (after world call outcome (plan_call exu 8) (exw []) cs) c = false /\
+  kf_filter exu 8 (after world call outcome (plan_call exu 8) (exw []) cs) c = false /\
+  kf_filter_touched exu 8 (after world call outcome (plan_call exu 8) (exw []) cs) c = true /\
+  outcome_eqb (snd (plan_call exu 8 (after world call outcome (plan_call exu 8) (exw []) cs) c))
+              (snd (plan_call exu 8 (exw []) c)) = true.
+Proof. vm_compute. repeat split; reflexivity. Qed.
